@@ -71,6 +71,9 @@ def run():
     res = core.tlc('Toc', 'TocQ.cfg' if ck.tier == 'quick' else 'TocT.cfg', workers=1, timeout=3000, heap='6g')
     ck.add_tlc(res)
     docs = res.printed_json()
+    res2 = core.tlc('Toc', 'TocQ2.cfg', workers=1, timeout=3000, heap='6g')      # longer outlines (drops of two and more levels), two variants
+    ck.add_tlc(res2)
+    docs += res2.printed_json()
     if len(docs) < 2000:
         raise core.MachineryError('Toc.tla exported only %d documents' % len(docs))
     chunk = 100
@@ -94,7 +97,7 @@ def run():
     ck.extra['documents'] = len(docs)
     ck.extra['cases'] = ncase
     # binding self-test
-    d = docs[len(docs) // 2]
+    d = [x for x in docs if x['cases']][len(docs) // 3]
     case = d['cases'][0]
     got = observe(m, d['src'], case)
     if got == [{'title': e['title'] + '!', 'parent': e['parent']} for e in case['entries']]:
